@@ -36,8 +36,8 @@ class MWorld:
         self.max_calls = 30000
         self._tables = {}
         self._strings = {}
-        self.T = {k: facts.enumconst.get(NS + 'XalanNode::' + k) for k in ('ELEMENT_NODE', 'ATTRIBUTE_NODE', 'TEXT_NODE', 'DOCUMENT_NODE', 'COMMENT_NODE')}
-        self.KIND = {'elem': 'ELEMENT_NODE', 'attr': 'ATTRIBUTE_NODE', 'text': 'TEXT_NODE', 'doc': 'DOCUMENT_NODE'}
+        self.T = {k: facts.enumconst.get(NS + 'XalanNode::' + k) for k in ('ELEMENT_NODE', 'ATTRIBUTE_NODE', 'TEXT_NODE', 'DOCUMENT_NODE', 'COMMENT_NODE', 'PROCESSING_INSTRUCTION_NODE')}
+        self.KIND = {'elem': 'ELEMENT_NODE', 'attr': 'ATTRIBUTE_NODE', 'text': 'TEXT_NODE', 'doc': 'DOCUMENT_NODE', 'comment': 'COMMENT_NODE', 'pi': 'PROCESSING_INSTRUCTION_NODE'}
         self.entry = {}
         for nm in ('s_axisTable', 's_nodeTypeTable', 's_functionTable'):
             t = facts.table('XPathProcessorImpl::' + nm, must=False)
@@ -463,9 +463,17 @@ def step_matches(step, n):
     if step == ['text', '(', ')']:
         return n.kind == 'text'
     if step == ['node', '(', ')']:
-        return n.kind in ('elem', 'text')          # child::node(): any child node (no attributes, not the root)
+        return n.kind in ('elem', 'text', 'comment', 'pi')          # child::node(): any child node (no attributes, not the root)
+    if step == ['comment', '(', ')']:
+        return n.kind == 'comment'
+    if step == ['processing-instruction', '(', ')']:
+        return n.kind == 'pi'
     if step == ['@', 'node', '(', ')']:
         return n.kind == 'attr'
+    if len(step) == 2 and step[0] == '@' and step[1].isalpha():
+        return n.kind == 'attr' and n.local == step[1]
+    if len(step) == 1 and step[0].isalpha():
+        return n.kind == 'elem' and n.local == step[0]
     raise KeyError(step)
 
 
